@@ -355,6 +355,20 @@ func genC04(rng *rand.Rand, tier string) (cases []string) {
 		v4 := "1." + c + ".3.4.in-addr.arpa"
 		cases = append(cases, arpaCase("C04.fromrev", v4), arpaCase("C04.fromrev", "1.2"+c+".3.4.in-addr.arpa"))
 	}
+	// every non-canonical octet spelling at every label position of an otherwise canonical
+	// in-addr.arpa name (values just past 255 that wrap in a byte, leading zeros, signs, other
+	// digit alphabets, blanks, empty), and the neighbouring canonical values
+	odd := []string{"256", "257", "258", "259", "260", "299", "300", "511", "512", "999", "1000", "0256", "00", "000", "01", "001", "010",
+		"+1", "-1", "+0", "1e1", "0x1", "\xef\xbc\x91", "\xd9\xa1", " 1", "1 ", "", "255", "0", "25", "2555"}
+	for pos := 0; pos < 4; pos++ {
+		for _, o := range odd {
+			ls := []string{fmt.Sprint(1 + rng.IntN(250)), fmt.Sprint(rng.IntN(256)), fmt.Sprint(rng.IntN(256)), fmt.Sprint(1 + rng.IntN(250))}
+			ls[pos] = o
+			nm := strings.Join(ls, ".") + ".in-addr.arpa"
+			cases = append(cases, arpaCase("C04.fromrev", nm), arpaCase("C04.fromrev", strings.ToUpper(nm)+"."),
+				"C04.v4rev "+hx([]byte(strings.Join(ls, "."))))
+		}
+	}
 	for i := 0; i < n; i++ {
 		switch rng.IntN(10) {
 		case 0, 1, 2:
@@ -438,10 +452,16 @@ func genC05(rng *rand.Rand, tier string) (cases []string) {
 			}
 		}
 	}
-	for _, k := range []int{1, 2, 3, 4} {
+	foreign = append(foreign, "1234", "host-101", "0192", "a100", "x199", "25500", "1255", "9.1234", "-200")
+	for kk := 0; kk < 8; kk++ {
+		k := 1 + kk%4
 		oct := make([]string, k)
+		wide := kk >= 4 // all octets three digits wide: the run has its maximal byte length
 		for i := range oct {
 			oct[i] = fmt.Sprint(pick(rng, 0, 1, 9, 10, 99, 100, 199, 200, 255, rng.IntN(256)))
+			if wide {
+				oct[i] = fmt.Sprint(100 + rng.IntN(156))
+			}
 		}
 		for _, fl := range foreign {
 			for _, dot := range []string{"", "."} {
